@@ -396,7 +396,7 @@ Proof.
     repeat match goal with |- context [match ?g with _ => _ end] => destruct g end; reflexivity.
 Qed.
 
-Lemma BatchInv_exec_msg c s txh m s' : exec_msg c s txh m = Okk s' -> fresh_ctx s (Tx txh m) -> BatchInv s -> BatchInv s'.
+Lemma BatchInv_exec_msg c s txh m s' : exec_msg_plain c s txh m = Okk s' -> fresh_ctx s (Tx txh m) -> BatchInv s -> BatchInv s'.
 Proof.
   intros H Hf Hinv. destruct m; simpl in H.
   - unfold define in H. eapply BatchInv_same; [|exact Hinv]. b_frame H.
@@ -449,12 +449,15 @@ Proof.
   eapply (BatchInv_same s2); [repeat split|exact Hb2].
 Qed.
 
-Lemma SInv_apply c s st : fresh_ctx s st -> SInv s -> SInv (apply c s st).
+Lemma SInv_apply c s st : c_msvc c < 0 -> fresh_ctx s st -> SInv s -> SInv (apply c s st).
 Proof.
-  intros Hf (Hq & Hb). pose proof (QInv_apply c s st Hf Hq) as Hq'. split; [exact Hq'|]. clear Hq'.
+  intros Hm Hf (Hq & Hb). pose proof (QInv_apply c s st Hm Hf Hq) as Hq'. split; [exact Hq'|]. clear Hq'.
   unfold apply. destruct (exec_step c s st) as [s'| |] eqn:E; try exact Hb.
-  destruct st; simpl in E.
-  - eapply BatchInv_exec_msg; eassumption.
+  destruct st; cbn [exec_step] in E.
+  9: { change (exec_msg_plain c s 0 (MBind svc prov depd depa pr qos true owner) = Okk s') in E.
+       eapply BatchInv_exec_msg; [exact E|exact I|exact Hb]. }
+  all: simpl in E.
+  - rewrite (exec_msg_plain_eq _ _ _ _ Hm) in E. eapply BatchInv_exec_msg; eassumption.
   - destruct (0 <=? dt); [|discriminate]. inversion E; subst. apply SInv_end_block. split; assumption.
   - inversion E; subst. eapply BatchInv_same; [|exact Hb]. repeat split.
   - eapply BatchInv_same; [|exact Hb]. b_frame E.
@@ -471,8 +474,8 @@ Proof.
 Qed.
 
 Theorem SInv_reachable c steps h0 t0 l0 :
-  fresh_history c (init h0 t0 l0) steps -> SInv (run c (init h0 t0 l0) steps).
-Proof. intros Hf. apply (run_inv_fresh SInv c); [intros; apply SInv_apply; assumption|exact Hf|apply SInv_init]. Qed.
+  c_msvc c < 0 -> fresh_history c (init h0 t0 l0) steps -> SInv (run c (init h0 t0 l0) steps).
+Proof. intros Hm Hf. apply (run_inv_fresh SInv c); [intros; apply SInv_apply; assumption|exact Hf|apply SInv_init]. Qed.
 
 Definition exp_pr (c : config) (s : state) (id : ctxid) (x : context) : state * context :=
   if x_brun x then
